@@ -26,6 +26,7 @@ func init() {
 	vh.Register("c02", "record", record)
 	vh.Register("c02", "one", one)
 	vh.Register("c02", "stress", stress)
+	vh.Register("c02", "coldstart", c03.ColdStart("c02"))
 }
 
 func q(s string) string {
@@ -237,6 +238,9 @@ func replayChars(args []string) error {
 		return e
 	}
 	c.stage = "G history"
+	if err := c03.AppendCold(coldIP(gather(acc), gather(rej), 300)); err != nil {
+		return err
+	}
 	hist := append(gather(acc), gather(rej)...)
 	c.historyIP(hist, vh.Rand(201))
 	return res.Close(map[string]any{"vectors": nvec.Load(), "concretisations": nconc.Load(), "evaluations": c.evals.Load(),
@@ -331,6 +335,9 @@ func replayToks(args []string) error {
 		return e
 	}
 	c.stage = "G history"
+	if err := c03.AppendCold(coldIP(gather(acc), gather(rej), 300)); err != nil {
+		return err
+	}
 	hist := append(gather(acc), gather(rej)...)
 	c.historyIP(hist, vh.Rand(231))
 	return res.Close(map[string]any{"vectors": nvec.Load(), "concretisations": nconc.Load(), "evaluations": c.evals.Load(),
@@ -413,6 +420,9 @@ func replayNames(args []string) error {
 		return err
 	}
 	c.stage = "G history"
+	if err := c03.AppendCold(coldNames(gather(acc), gather(rej), 400)); err != nil {
+		return err
+	}
 	hist := append(gather(acc), gather(rej)...)
 	c.historyNames(hist, vh.Rand(261))
 	return res.Close(map[string]any{"vectors": nvec.Load(), "concretisations": nconc.Load(), "evaluations": c.evals.Load(),
